@@ -4,6 +4,7 @@ step k:  pick_k (which thread moves), opt_k (which select case) are fresh variab
 alternative of every thread is executed symbolically under `guard & enabled & pick_k==tid`, heap
 writes are merged back guarded, alternatives at equal locations are merged.  After the last step
 the collected obligations (assertions, panics, stuck states) are decided by z3."""
+import os
 import time
 import z3
 from vals import *
@@ -323,15 +324,18 @@ class Run:
                 if a.en_last is not False and a.en_last is not None:
                     skipped_en.append(AND(a.guard, a.en_last))
                 continue
-            if a.foot is not None and prev is not None and self.foata:
+            is_q = a.info is not None and type(a.info[0]) is str and a.info[0].rsplit(".", 1)[-1] == "verifQuiesce"
+            if a.foot is not None and prev is not None and self.foata and not is_q:
                 touched = False
                 for ptid in prev["fires"]:
                     if ptid == t.tid:
                         continue
-                    if self.conflict(a.foot[0], a.foot[1], prev["R"].get(ptid, ()) or set(), prev["W"].get(ptid, ()) or set()):
+                    if (ptid, t.tid) in prev["confl"] or self.conflict(a.foot[0], a.foot[1], prev["R"].get(ptid, ()) or set(), prev["W"].get(ptid, ()) or set()):
                         touched = True
                         break
                 if not touched:
+                    if self.verbose:
+                        print("      skip t%d %s en_last=%s" % (t.tid, self.describe(a, a.opt), "False" if a.en_last is False else ("None" if a.en_last is None else "formula")), flush=True)
                     if a.en_last is not False and a.en_last is not None:
                         skipped_en.append(AND(a.guard, a.en_last))
                     m.stats["skipped"] = m.stats.get("skipped", 0) + 1
@@ -380,11 +384,12 @@ class Run:
             fires = {tid: z3.Bool("f!%d!%d" % (k, tid)) for tid in tids}
         optb = {}
 
-        def optbit(j):
+        def optbit(j, tid):
+            # which select case a thread takes: one bit per (thread, case); cases of one thread are exclusive
             j = 0 if j is None else j
-            if j not in optb:
-                optb[j] = z3.Bool("o!%d!%d" % (k, j))
-            return optb[j]
+            if (tid, j) not in optb:
+                optb[(tid, j)] = z3.Bool("o!%d!%d!%d" % (k, tid, j))
+            return optb[(tid, j)]
         nstutter = 0
         by_alt = {}
         for c in live:
@@ -404,7 +409,7 @@ class Run:
                 child = a.copy()
                 g = AND(a.guard, cond, fire)
                 if multi:
-                    g = AND(g, optbit(opt))
+                    g = AND(g, optbit(opt, t.tid))
                 if not deterministic and g is not True and not (z3.is_const(g) and g.decl().kind() == z3.Z3_OP_UNINTERPRETED):
                     self.nguard += 1
                     bname = z3.Bool("c!%d" % self.nguard)
@@ -450,7 +455,7 @@ class Run:
                     pass
                 elif multi:
                     m.add_constraint(z3.Implies(z3.And(fire, B(a.guard)),
-                                                z3.Or(*[z3.And(B(cond), optbit(opt)) for (cond, opt) in kept])))
+                                                z3.Or(*[z3.And(B(cond), optbit(opt, t.tid)) for (cond, opt) in kept])))
                 else:
                     m.add_constraint(z3.Implies(z3.And(fire, B(a.guard)), B(kept[0][0])))
             if deterministic:
@@ -464,10 +469,11 @@ class Run:
             # nothing but state-preserving transitions (or nothing at all) could fire
             self.nspin_steps = getattr(self, "nspin_steps", 0) + (1 if nstutter else 0)
             return "retry" if (nstutter and not retry) else False
-        ob = list(optb.values())
+        ob = list(optb.items())
         for i in range(len(ob)):
             for j in range(i + 1, len(ob)):
-                m.add_constraint(z3.Or(z3.Not(ob[i]), z3.Not(ob[j])))
+                if ob[i][0][0] == ob[j][0][0]:
+                    m.add_constraint(z3.Or(z3.Not(ob[i][1]), z3.Not(ob[j][1])))
         self.sched.append(sched)
         self.fires.append(fires)
         # heap writes, goroutines started in this step (their first local segment belongs to the spawner's step)
@@ -731,6 +737,35 @@ class Run:
             if self.time_budget_s and time.time() - self.t0 > self.time_budget_s:
                 raise BoundExceeded("time budget of %ds exhausted at step %d" % (self.time_budget_s, k))
             r_ = self.step(k)
+            if os.environ.get("GOBMC_SATCHECK"):
+                ss = z3.Solver(); ss.add(*m.constraints)
+                if ss.check() != z3.sat:
+                    print("  !! constraints became unsatisfiable at step", k, [(tid, d) for (tid, d, g, o) in self.sched[-1]] if self.sched else None, flush=True)
+                    for (kk, tid, idx, bl) in getattr(self, "max_dbg", []):
+                        if kk != k:
+                            continue
+                        s2 = z3.Solver(); s2.add(*[c for i, c in enumerate(m.constraints) if i != idx])
+                        print("     without maximality of t%d (blockers %s): %s" % (tid, bl, s2.check()), flush=True)
+                    lo, hi = 0, len(m.constraints)
+                    while lo < hi:
+                        mid = (lo + hi) // 2
+                        sx = z3.Solver(); sx.add(*m.constraints[:mid + 1])
+                        if sx.check() == z3.sat:
+                            lo = mid + 1
+                        else:
+                            hi = mid
+                    print("     first constraint that makes the system unsat: #%d of %d: %s" % (lo, len(m.constraints), m.constraints[lo].sexpr()[:600]), flush=True)
+                    idxs = [idx for (kk, tid, idx, bl) in getattr(self, "max_dbg", []) if kk == k]
+                    s3 = z3.Solver(); s3.add(*[c for i, c in enumerate(m.constraints) if i not in idxs])
+                    print("     without all maximality constraints of this step:", s3.check(), flush=True)
+                    for (kk, tid, idx, bl) in getattr(self, "max_dbg", []):
+                        if kk == k:
+                            s4 = z3.Solver(); s4.add(*[c for i, c in enumerate(m.constraints) if i not in idxs]); s4.add(self.fires[-1][tid])
+                            print("     can t%d fire at all: %s" % (tid, s4.check()), flush=True)
+                    s5 = z3.Solver(); s5.add(*[c for i, c in enumerate(m.constraints) if i not in idxs]); s5.add(*self.fires[-1].values())
+                    print("     can all fire together:", s5.check(), flush=True)
+                    print("     fires:", self.fires[-1], "tids R/W:", {t: (sorted(map(str, self.prev['R'][t]))[:6], sorted(map(str, self.prev['W'][t]))[:6]) for t in self.prev['R']}, flush=True)
+                    break
             if r_ == "retry":
                 r_ = self.step(k, retry=True)
             if not r_:
@@ -745,6 +780,18 @@ class Run:
         else:
             self.any_enabled_final = False
         return self
+
+    def pending_quiesce(self):
+        """guard under which some thread is still parked at verifQuiesce when the run ended: must be infeasible"""
+        gs = []
+        for t in self.m.threads:
+            for a in t.alts:
+                if a.info is not None and type(a.info[0]) is str and a.info[0].rsplit(".", 1)[-1] == "verifQuiesce":
+                    gs.append(a.guard)
+        if not gs:
+            return False
+        # ... although nothing at all is enabled any more (runs that the solver merely stopped half-way do not count)
+        return AND(OR(*gs), NOT(self.enabled_now()))
 
     def enabled_now(self):
         m = self.m
